@@ -3,3 +3,4 @@ import Thanos.Driver.Index
 import Thanos.Props.C13
 import Thanos.Props.C12
 import Thanos.Props.C16
+import Thanos.Props.C14
